@@ -304,6 +304,59 @@ theorem max_spec (t : Table) (wf : t.WF = true) (hp : t.hitPolicy = .collectMax)
   · intro n ns h
     exact ⟨maxNum n ns, by simp [Spec.max, h], maxNum_spec n ns⟩
 
+/-- C< / C> over strings: when every matching output is a string, the result is a member of them that none of
+them is less than (C<) respectively greater than (C>), in the order of the code's `String` comparison (`strLt`:
+by characters) — the counterpart of the number clauses of `min_spec` / `max_spec`. -/
+theorem min_max_spec_strings (t : Table) (wf : t.WF = true) (hne : matchingRules t ≠ [])
+    (h1 : ¬ t.componentNames.length > 1) (s : List Char) (ss : List (List Char))
+    (h : allStrs (firsts t) = some (s :: ss)) :
+    (t.hitPolicy = .collectMin → ∃ m, evaluate t = .ok (.str m) ∧ m ∈ s :: ss ∧ ∀ x ∈ s :: ss, strLt x m = false) ∧
+    (t.hitPolicy = .collectMax → ∃ m, evaluate t = .ok (.str m) ∧ m ∈ s :: ss ∧ ∀ x ∈ s :: ss, strLt m x = false) := by
+  have hnum : allNums (firsts t) = none := by
+    cases hf : firsts t with
+    | nil => rw [hf] at h; simp [allStrs] at h
+    | cons v vs =>
+      rw [hf] at h
+      cases v <;> simp [allStrs] at h
+      simp [allNums]
+  constructor
+  · intro hp
+    refine ⟨minStr s ss, ?_, minStr_spec s ss⟩
+    rw [(min_spec t wf hp hne).1, if_neg h1]
+    simp [Spec.min, hnum, h]
+  · intro hp
+    refine ⟨maxStr s ss, ?_, maxStr_spec s ss⟩
+    rw [(max_spec t wf hp hne).1, if_neg h1]
+    simp [Spec.max, hnum, h]
+
+example : allStrs (firsts ⟨.collectMin, [], [.none], [.none], [⟨[.t], [.str ['b']]⟩, ⟨[.t], [.str ['a']]⟩]⟩) =
+    some [['b'], ['a']] := by decide
+
+/-- **C< and C> do not depend on the order of the rules**: two tables that differ only in the arrangement of their
+rules return the same minimum / maximum — whatever the outputs are (numbers, strings, anything else: then both are
+null).  (C# likewise, `count_rule_order_irrelevant`; C+ not as it stands, every partial sum is rounded.) -/
+theorem collect_min_max_rule_order_irrelevant (t : Table) (rules' : List Rule) (wf : t.WF = true)
+    (wf' : ({ t with rules := rules' } : Table).WF = true)
+    (hp : t.hitPolicy = .collectMin ∨ t.hitPolicy = .collectMax) (hperm : t.rules.Perm rules')
+    (hne : matchingRules t ≠ []) :
+    evaluate { t with rules := rules' } = evaluate t := by
+  have hf : (matchingRules t).Perm (matchingRules { t with rules := rules' }) := hperm.filter _
+  have hne' : matchingRules { t with rules := rules' } ≠ [] := by
+    intro h
+    have hl := hf.length_eq
+    rw [h] at hl
+    exact hne (List.length_eq_zero_iff.mp hl)
+  have hfs : (firsts t).Perm (firsts { t with rules := rules' }) := hf.map _
+  obtain ⟨hmin, hmax⟩ := specMin_perm hfs
+  rcases hp with hp | hp
+  · rw [(min_spec t wf hp hne).1, (min_spec _ wf' hp hne').1, hmin]
+  · rw [(max_spec t wf hp hne).1, (max_spec _ wf' hp hne').1, hmax]
+
+example : (⟨.collectMin, [], [.none], [.none], [⟨[.t], [.num 2]⟩, ⟨[.t], [.num 1]⟩]⟩ : Table).rules.Perm
+      [⟨[.t], [.num 1]⟩, ⟨[.t], [.num 2]⟩] ∧
+    matchingRules ⟨.collectMin, [], [.none], [.none], [⟨[.t], [.num 2]⟩, ⟨[.t], [.num 1]⟩]⟩ ≠ [] :=
+  ⟨List.Perm.swap _ _ _, by decide⟩
+
 /-! ### Numbers are exact decimals
 
 `DTValue.num` carries a `DNum` (`Model/DNum.lean`): the value `coeff / 10^scale` of a FEEL
@@ -616,26 +669,98 @@ namespace Dmn.Value
 before, a null input did not satisfy it). -/
 theorem irrelevant_satisfied (l : Value) : inV l .irrelevant = .bool true := rfl
 
-/-- `not(tests)` is the negation of `tests` for every kind of test `eval_in_list` handles —
-intervals, booleans, dates, null … (since 8567387; before, only numbers, strings and comparisons):
-satisfied exactly when the list is decided and not satisfied, and undecided (the same
-non-boolean value) exactly when the list is. -/
-theorem negated_list_spec (l : Value) (items : List Value) :
-    (inV l (.negList items) = .bool true ↔ inV l (.exprList items) = .bool false) ∧
-    (inV l (.negList items) = .bool false ↔ inV l (.exprList items) = .bool true) ∧
-    (∀ v, (∀ b, v ≠ .bool b) → (inV l (.negList items) = v ↔ inV l (.exprList items) = v)) := by
-  simp only [inV, inNegatedList]
-  cases h : inList l items <;> simp
-  rename_i b
-  intro v h1 h2
-  cases b <;> constructor <;> intro h <;> first | exact absurd h.symm h1 | exact absurd h.symm h2
+/-- The value of one test of a negated list as a three-valued truth value: `none` = it cannot be decided. -/
+def test3 (l item : Value) : Option Bool :=
+  match negItem l item with
+  | .bool b => some b
+  | _ => none
 
-/-- Old witnesses: `10 in not([1..5])` and `true in not(false)` are true, `3 in not([1..5])`
-false (all three were null). -/
+theorem negLoop_spec (l : Value) (items : List Value) (u : Bool) :
+    (negLoop l items u = .bool false ↔ ∃ item ∈ items, test3 l item = some true) ∧
+    (negLoop l items u = .bool true ↔ u = false ∧ ∀ item ∈ items, test3 l item = some false) ∧
+    (negLoop l items u = .null ↔
+      (∀ item ∈ items, test3 l item ≠ some true) ∧ (u = true ∨ ∃ item ∈ items, test3 l item = none)) := by
+  induction items generalizing u with
+  | nil => cases u <;> simp [negLoop]
+  | cons item rest ih =>
+    simp only [negLoop, List.mem_cons, exists_eq_or_imp, forall_eq_or_imp]
+    cases hn : negItem l item with
+    | bool b =>
+      have ht : test3 l item = some b := by simp [test3, hn]
+      cases b with
+      | true => simp [ht]
+      | false =>
+        simp only [ht]
+        have := ih u
+        simp [this.1, this.2.1, this.2.2]
+    | _ =>
+      have ht : test3 l item = none := by simp [test3, hn]
+      simp only [ht]
+      have := ih true
+      simp [this.1, this.2.1, this.2.2]
+
+/-- **`not(tests)` is the three-valued negation of the three-valued disjunction of the tests** (since the repair
+of F71-negated-undecided; before, a test that cannot be decided counted as not satisfied and the negation was
+true): the entry is *false* exactly when one of the tests is satisfied, *true* exactly when every test is decided
+and none is satisfied, and null — the rule does not match — exactly when no test is satisfied and one of them
+cannot be decided for the input, as `not(< 5)` for a string or for null (`null < 5` is null, `not(null)` is null).
+For every input value and every list of tests, of any kinds. -/
+theorem negated_list_spec (l : Value) (items : List Value) :
+    (inV l (.negList items) = .bool false ↔ ∃ item ∈ items, test3 l item = some true) ∧
+    (inV l (.negList items) = .bool true ↔ ∀ item ∈ items, test3 l item = some false) ∧
+    (inV l (.negList items) = .null ↔
+      (∀ item ∈ items, test3 l item ≠ some true) ∧ ∃ item ∈ items, test3 l item = none) ∧
+    (inV l (.negList items) = .bool false ∨ inV l (.negList items) = .bool true ∨ inV l (.negList items) = .null) := by
+  have h := negLoop_spec l items false
+  simp only [inV, inNegatedList]
+  refine ⟨h.1, by simpa using h.2.1, by simpa using h.2.2, ?_⟩
+  generalize negLoop l items false = r at h
+  by_cases h1 : ∃ item ∈ items, test3 l item = some true
+  · exact Or.inl (h.1.mpr h1)
+  · by_cases h2 : ∃ item ∈ items, test3 l item = none
+    · right; right
+      refine h.2.2.mpr ⟨fun item hi ht => h1 ⟨item, hi, ht⟩, Or.inr h2⟩
+    · right; left
+      refine h.2.1.mpr ⟨rfl, fun item hi => ?_⟩
+      cases ht : test3 l item with
+      | none => exact absurd ⟨item, hi, ht⟩ h2
+      | some b =>
+        cases b with
+        | true => exact absurd ⟨item, hi, ht⟩ h1
+        | false => rfl
+
+/-- A test that is decided agrees with the same test standing alone in a list of tests: for the kinds of test
+`eval_in_list` handles, `test3 l item = some true` exactly when the one-item list is satisfied. -/
+theorem test3_true_iff_in (l item : Value) (h : inItem l item ≠ none) :
+    test3 l item = some true ↔ inV l (.exprList [item]) = .bool true := by
+  have key : ∀ v : Value, ((match v with | .bool b => some b | _ => none) = some true ↔
+      (match some (isTrue v) with
+        | some true => Value.bool true
+        | some false => Value.bool false
+        | none => Value.null) = Value.bool true) := by
+    intro v
+    cases v <;> simp [isTrue]
+    rename_i b; cases b <;> simp
+  cases item <;> first
+    | exact absurd rfl h
+    | (simp only [test3, negItem, inV, inList, inItem]; exact key _)
+    | (simp only [test3, negItem, inV, inList, inItem]
+       split <;> simp_all [isTrue])
+
+/-- Old witnesses (F68): `10 in not([1..5])` and `true in not(false)` are true, `3 in not([1..5])` false.
+The witnesses of F71: `null in not(< 5)` and `true in not(< 5)` are null (were true), a satisfied alternative
+beside the undecided one makes the entry false, a decided one leaves it null. -/
 example :
     inV (.num (Dec.ofNat 10)) (.negList [.range (.num (Dec.ofNat 1)) true (.num (Dec.ofNat 5)) true]) = .bool true ∧
     inV (.num (Dec.ofNat 3)) (.negList [.range (.num (Dec.ofNat 1)) true (.num (Dec.ofNat 5)) true]) = .bool false ∧
-    inV (.bool true) (.negList [.bool false]) = .bool true := ⟨by rfl, by rfl, by rfl⟩
+    inV (.bool true) (.negList [.bool false]) = .bool true ∧
+    inV .null (.negList [.unaryLt (.num (Dec.ofNat 5))]) = .null ∧
+    inV (.bool true) (.negList [.unaryLt (.num (Dec.ofNat 5))]) = .null ∧
+    inV (.bool true) (.negList [.unaryLt (.num (Dec.ofNat 5)), .bool true]) = .bool false ∧
+    inV (.bool true) (.negList [.bool false, .range (.num (Dec.ofNat 1)) true (.num (Dec.ofNat 5)) true]) = .null ∧
+    inV (.num (Dec.ofNat 7)) (.negList [.unaryLt (.num (Dec.ofNat 5))]) = .bool true ∧
+    inV .null (.negList [.num (Dec.ofNat 5)]) = .bool true :=
+  ⟨by rfl, by rfl, by rfl, by rfl, by rfl, by rfl, by rfl, by rfl, by rfl⟩
 
 /-- An alternative `null` in a list of tests is the test `= null`: it is satisfied by a null
 input and passed over by any other, whatever its place in the list (since 4ff6762; before, the
